@@ -87,8 +87,8 @@ def span_wf_oracle(meta, impl):
 
 def has_head(g, heads):
     if isinstance(g, str): return g in heads
-    if isinstance(g, list):
-        return (g and g[0] in heads) or any(has_head(a, heads) for a in g if isinstance(a, (list, str)))
+    if isinstance(g, (list, tuple)):
+        return bool(g and isinstance(g[0], str) and g[0] in heads) or any(has_head(a, heads) for a in g if isinstance(a, (list, tuple, str)))
     return False
 
 BACKTRACK = {"Or", "Choice", "ChoiceVec", "OrNot", "Not", "AndIs", "Rewind", "Filter", "TryMap", "RepUnit", "Collect",
